@@ -102,9 +102,14 @@ func (c *Chain) Restart() {
 // queries.  None of it is part of the replicated state machine.
 func (c *Chain) ServeTraffic(txs [][]byte) {
 	defer func() { _ = recover() }() // whatever happens here must not matter to consensus
+	// gas estimation first (Simulate runs the message handlers on a branch that is thrown away), then
+	// mempool admission (CheckTx runs the ante handler only and advances the check state's sequence,
+	// after which a simulation of the same transaction would stop at the sequence check)
+	for _, bz := range txs {
+		_, _, _ = c.App.Simulate(bz)
+	}
 	for _, bz := range txs {
 		c.App.CheckTx(abci.RequestCheckTx{Tx: bz, Type: abci.CheckTxType_New})
-		_, _, _ = c.App.Simulate(bz)
 	}
 	for _, path := range []string{"/chain4energy.c4echain.cfevesting.Query/VestingType", "/chain4energy.c4echain.cfevesting.Query/Params",
 		"/chain4energy.c4echain.cfevesting.Query/VestingsSummary", "/chain4energy.c4echain.cfeminter.Query/State", "/chain4energy.c4echain.cfeminter.Query/Inflation",
